@@ -37,6 +37,9 @@ TRUSTED = [
     "(queries see pending rows), `ORDER BY timestamp DESC` on distinct timestamps",
     "hashes are symbolic: `hash_call_node` collision freedom enters `hist_inv` as the explicit hypothesis `MerkleOK` "
     "(an already recorded node with the same call hash has the same task and child edges) and `call ∉ children`",
+    "jobs that record no provenance are part of the modelled histories (Hist.resolveNoProv: nothing written, subtree set "
+    "handed to the parent); assumed: a call hash such a job handed to its parent is not recorded as a NEW call node later "
+    "by the same scheduler process (hypothesis of Hist.resolve), and an import happens between scheduler processes",
     "the scheduler's job tree is an input of the model (`Hist.resolve` takes the finished child jobs); that children "
     "are resolved before their parent and that `Job.subtree_tasks` is what `calc_subtree_tasks`/`_get_subtree_tasks` "
     "compute is tied by the correspondence (arguments of every real `record_call_node` call are replayed on the model)",
@@ -48,7 +51,9 @@ ASSUMPTIONS = [
     "programs: pure tasks with int arguments and nested-list results, no context, no File/Handle values, every job "
     "records provenance (prov=True), default cache_scope; check_valid in {full, shallow}; plus one corpus program with a "
     "shallow parent over prov=False children (record_call_node records their Task values itself), and one with a failure "
-    "caught by catch_all beneath a shallow task (plain, and with the failed job served by CSE)",
+    "caught by catch_all beneath a shallow task (plain, and with the failed job served by CSE), and three with a job that "
+    "records no provenance (task option prov=False, .options(prov=False), redun.functools.no_prov) between a shallow "
+    "recording ancestor and the edited task",
     "edits are version bumps (task hash derived from `version`), reverts restore the old hash",
     "process death = loss of everything not committed; the sqlite file after the last successful commit is what "
     "the next process sees (no torn pages)",
@@ -190,6 +195,23 @@ def witness_cases(ctx, env, flags):
         c.prog.edit(0)
         c.run(0)
     scenario("fail-twin", fail_twin)
+
+    # a job that records no provenance (three ways to get one) between a shallow recording ancestor and the edited
+    # task; cleanly recorded: run, run again (hit), edit the deepest task only, run, revert, run
+    for kind in ("option", "call", "no_prov"):
+        def noprov_mid(c, kind=kind):
+            c.prog = ctl_db.NoProvMidProgram(kind)
+            c.sig_override = ("C03-noprov-job-subtree-not-handed-up",
+                              "a job that records no provenance hands its parent only its own task: the shallow recording "
+                              "ancestor is recorded without the tasks that ran beneath that job and replays a stale result "
+                              "after one of them is edited")
+            c.run(0)
+            c.run(0)
+            c.prog.edit(0)
+            c.run(0)
+            c.prog.versions[0] -= 1
+            c.run(0)
+        scenario(f"noprov-mid-{kind}", noprov_mid)
 
     # shallow parent over prov=False children: record_call_node itself records the children's Task values (one
     # commit each) between the CallNode and its subtree rows.  Every commit of that record_call_node as crash point
